@@ -133,9 +133,11 @@ var nameAlpha = []string{"A", "B", "PATH", "x", "Z_9", "a.b", "né", "K k", "名
 	// names that mean something to a JavaScript object: the environment is data, whatever the names
 	"__proto__", "constructor", "toString", "hasOwnProperty", "valueOf", "length", "0", "__defineGetter__",
 	// names that mean something to the host process, its run-time system or to Node: still just data in process.env
-	"TZ", "TZ", "GODEBUG", "GOMAXPROCS", "LANG", "LC_ALL", "TMPDIR", "NODE_ENV", "NODE_OPTIONS", "NODE_PATH", "PWD", "USER", "SHELL", "HOSTNAME"}
+	"#hash", "export X", "TZ", "TZ", "GODEBUG", "GOMAXPROCS", "LANG", "LC_ALL", "TMPDIR", "NODE_ENV", "NODE_OPTIONS", "NODE_PATH", "PWD", "USER", "SHELL", "HOSTNAME"}
 var valPieces = []string{"", "=", "==", "a", "b c", " ", "é", "日本", "x=y", "=lead", "trail=", "/usr/bin:/bin", "\t", "\"q\"", "a=b=c", "🙂", "%41", "$HOME",
-	"UTC", "UTC", "Europe/London", "America/New_York", "C", "en_US.UTF-8", "production", "1", "/tmp"}
+	"UTC", "UTC", "Europe/London", "America/New_York", "C", "en_US.UTF-8", "production", "1", "/tmp",
+	// values that a line- or shell-oriented reader would cut or re-interpret
+	"\n", "line1\nGHOST=1", "dos\r", "\r\n", "# not a comment", "'single'", "\\n", "a\x00b"[:1]}
 
 func genName(r *lib.Rand, used map[string]bool) string {
 	for {
